@@ -1009,7 +1009,12 @@ def _sub_violation(case, obs):
         diffs = _diff_paths(exp, o[1])
         outside = [d for d in diffs if not any(d[:len(p)] == p for p in selected)]
         if outside:
-            why = "child-only-selection-resets-member" if any(d[:len(p) - 1] == p[:-1] for d in outside for p in childonly) else "other"
+            # the listed defect: a selection that addresses a member below an ancestor that is itself not selected makes
+            # replace_subgroups() rebuild that ancestor from its default factory (value_of_selection is None), at ANY depth;
+            # it is the listed finding only when EVERY unexpected difference lies under such a rebuilt ancestor
+            rebuilt = [p[:j] for p in childonly for j in range(1, len(p)) if p[:j] not in selected]
+            why = ("child-only-selection-resets-member"
+                   if all(any(d[:len(a)] == a for a in rebuilt) for d in outside) else "other")
             return f"sub-other-changed:{why}", f"unselected {'.'.join(outside[0])} changed: expected {get(exp, outside[0])}, observed {get(o[1], outside[0])}"
         return "sub-member-wrong", f"selected member at {'.'.join(diffs[0])}: expected {get(exp, diffs[0])}, observed {get(o[1], diffs[0])}"
     return None
